@@ -19,7 +19,7 @@ def gen_case(rng, i, tier):
     links = V.gen_links(rng, rng.choice([1, 2, 2, 3]))
     lens = [int(l.split(" ")[4]) for l in links]
     total = sum(lens)
-    ops = ["case %d" % i] + links + ["ref 0", "open 0 1 %d" % rng.choice([4096, 513, 64, 100000]), "open 1 1 4096"]
+    ops = ["case %d" % i] + links + V.gen_splits(rng, links) + ["ref 0", "open 0 1 %d" % rng.choice([4096, 513, 64, 100000]), "open 1 1 4096"]
 
     def someop(slot):
         r = rng.random()
